@@ -23,6 +23,13 @@ pub(crate) mod uf;
 pub(crate) mod verif_hook;
 #[cfg(egglog_verif)]
 pub use verif_hook::{verif_plan_sink_start, verif_plan_sink_take};
+/// Verification hook H6: the private index-construction / subset-search algorithms, exposed for
+/// differential testing (compiled only with `--cfg egglog_verif`).
+#[cfg(egglog_verif)]
+pub mod verif_hooks {
+    pub use crate::hash_index::verif_hooks::{merge2, radix_passes, radix_sort};
+    pub use crate::offsets::verif_hooks::{binary_search_from, scan_for_offset};
+}
 
 #[cfg(test)]
 mod tests;
